@@ -312,19 +312,25 @@ class Regex(RegexReader):
         True
 
         """
-        productions, _ = self._get_production(starting_symbol)
-        cfg_res = cfg.CFG(start_symbol=cfg.utils.to_variable(starting_symbol),
+        start = cfg.utils.to_variable(starting_symbol)
+        productions, _ = self._get_production(starting_symbol, reserved=start)
+        cfg_res = cfg.CFG(start_symbol=start,
                           productions=set(productions))
         return cfg_res
 
-    def _get_production(self, current_symbol, count=0):
+    def _get_production(self, current_symbol, count=0, reserved=None):
         next_symbols = []
         next_productions = []
         for son in self.sons:
             next_symbol = "A" + str(count)
             count += 1
+            while cfg.Variable(next_symbol) == reserved:
+                # The starting symbol is not one of the inner variables
+                next_symbol = "A" + str(count)
+                count += 1
             # pylint: disable=protected-access
-            new_prods, count = son._get_production(next_symbol, count)
+            new_prods, count = son._get_production(next_symbol, count,
+                                                   reserved)
             next_symbols.append(next_symbol)
             next_productions += new_prods
         new_prods = self.head.get_cfg_rules(current_symbol, next_symbols)
